@@ -29,6 +29,17 @@ Definition rd_op (x : sx) : option op :=
   | _ => None
   end.
 
+(* update() with a MAPPING argument is `for key in other: self[key] = other[key]` (collections.abc.MutableMapping):
+   a mapping built from pairs contributes each key once with its last value (updmap); the mapping ITSELF
+   (m.update(m), seed C17-14) contributes its own _dict view at the time of the call (updself) — every repeated
+   key collapses to its last value *)
+Definition rd_op_s (s : state) (x : sx) : option op :=
+  match x with
+  | Lst [Str name] => if str_eqb name (lit "updself") then Some (Update (d s)) else rd_op x
+  | Lst [Str name; ps] => if str_eqb name (lit "updmap") then Some (Update (dict_of (rd_pairs ps))) else rd_op x
+  | _ => rd_op x
+  end.
+
 Definition show_pairs (a : pairs) : sx := Lst (map (fun p => Lst [of_N (fst p); of_N (snd p)]) a).
 
 Definition show_result (r : result) : sx :=
@@ -58,7 +69,7 @@ Fixpoint run_ops (s : state) (ops : list sx) : list sx :=
   match ops with
   | [] => []
   | x :: r =>
-      match rd_op x with
+      match rd_op_s s x with
       | None => [tag (lit "badop")]
       | Some o => let '(s', res) := step s o in Lst [show_result res; show_views s'] :: run_ops s' r
       end
